@@ -24,6 +24,6 @@ For EACH mutant k in {{1,2}} deliver in {outdir}/m<k>/ :
   - demo.py : a small standalone program that exits 0 / prints PASS when the property holds for its chosen input and exits 1 / prints FAIL when it does not, run as `cd <repo> && PYTHONPATH=<repo> /venv/bin/python demo.py`. It must FAIL with your patch applied and PASS on the unpatched worktree. It should check the property itself (against independent maths, e.g. numpy linear algebra), not the implementation detail you changed.
   - meta.json : {{"property": "{pid}", "summary": "<one sentence: what was changed>", "needs_to_manifest": "<what specific input/sequence/configuration is needed>", "files": [...], "tests_run": "<command(s) you ran and the result>"}}
 
-You MUST check that the existing tests still pass with each patch applied, at least the directly relevant test directories, e.g.:  cd {wt} && PYTHONPATH={wt} /venv/bin/python -m pytest {tests} -q -x -p no:cacheprovider -n 4 --timeout=900   (some tests are skipped because optional backends are missing - that is fine; if a test already fails WITHOUT your patch it does not count against you: compare with the unpatched result). The machine is shared: do not use more than 4 pytest workers, and do not run the whole-repository test suite more than once per mutant.
+You MUST check that the existing tests still pass with each patch applied, at least the directly relevant test directories, e.g.:  cd {wt} && PYTHONPATH={wt} OMP_NUM_THREADS=2 /venv/bin/python -m pytest {tests} -q -x -p no:cacheprovider -n 4 --timeout=900   (some tests are skipped because optional backends are missing - that is fine; if a test already fails WITHOUT your patch it does not count against you: compare with the unpatched result). The machine is shared: do not use more than 4 pytest workers, and do not run the whole-repository test suite more than once per mutant.
 
 Finish by replying with a short summary (what each mutant changes, what it needs to manifest, test results). Leave the worktree clean (git checkout -- .) when done.""")
